@@ -173,3 +173,30 @@ Definition prompt_pair (d : dfa) (g : graph) (R : rankmap) (s : sid) (q : qid) :
 
 Definition prompt_ok (d : dfa) (g : graph) (V : pairing) (R : rankmap) : bool :=
   forallb (fun kv => forallb (prompt_pair d g R (fst kv)) (snd kv)) (PositiveMap.elements V).
+
+(* ---------- UTF-8 (C04, C12): matches end on char boundaries ----------
+   PU: a set of (DFA state, UTF-8 automaton state) pairs containing (start, U0) and closed under
+   every byte the UTF-8 automaton accepts; whenever a unit successor is a match state the UTF-8
+   component must be U0 (the text matched so far ends on a char boundary). *)
+From LogosV Require Import Base.Utf8.
+Definition upairs := PositiveMap.t (list ustate).
+Definition inPU (P : upairs) (q : qid) (u : ustate) : bool :=
+  match PositiveMap.find q P with Some l => existsb (ustate_eqb u) l | None => false end.
+
+Definition utf8_pair (d : dfa) (P : upairs) (q : qid) (u : ustate) : bool :=
+  forallb (fun b => let u' := ustep u b in
+             if ustate_eqb u' URej then true
+             else inPU P (dstep d q (UB b)) u'
+                  && (nomatch d (dstep d q (UB b)) || ustate_eqb u U0)) all_bytes.
+
+Definition utf8_ok (d : dfa) (P : upairs) : bool :=
+  inPU P (d_start d) U0
+  && forallb (fun kv => forallb (utf8_pair d P (fst kv)) (snd kv)) (PositiveMap.elements P).
+
+(* strictness: a byte the UTF-8 automaton rejects leads the DFA to a non-live state (it may still
+   confirm a match of the text before it): the definition only matches valid UTF-8 *)
+Definition utf8_strict_pair (d : dfa) (D : pset) (q : qid) (u : ustate) : bool :=
+  forallb (fun b => if ustate_eqb (ustep u b) URej
+                    then pmem (dstep d q (UB b)) D else true) all_bytes.
+Definition utf8_strict_ok (d : dfa) (P : upairs) (D : pset) : bool :=
+  forallb (fun kv => forallb (utf8_strict_pair d D (fst kv)) (snd kv)) (PositiveMap.elements P).
